@@ -49,6 +49,13 @@ pub enum DStep {
     NextBack,
     Len,
     SizeHint,
+    /// `nth(k)`: the k skipped elements are dropped by the iterator, the next one is yielded
+    Nth(u8),
+    NthBack(u8),
+    /// `by_ref().count()` / `.last()` / `.rev().fold(..)`: consume (and drop) the rest
+    CountRest,
+    LastRest,
+    RFoldRest,
 }
 
 #[derive(Serialize, Deserialize, Clone, Debug, PartialEq)]
@@ -604,6 +611,31 @@ impl<'c, E: Elem + Clone + Default + Ord> Eng<'c, E> {
                 }
                 DStep::SizeHint => {
                     let _ = d.size_hint();
+                }
+                DStep::Nth(k) => {
+                    if let Some(e) = d.nth(*k as usize % 4) {
+                        f += 1;
+                        held.push(e);
+                    }
+                }
+                DStep::NthBack(k) => {
+                    if let Some(e) = d.nth_back(*k as usize % 4) {
+                        b += 1;
+                        held.push(e);
+                    }
+                }
+                DStep::CountRest => {
+                    let _ = d.by_ref().count();
+                }
+                DStep::LastRest => {
+                    if let Some(e) = d.by_ref().last() {
+                        b += 1;
+                        held.push(e);
+                    }
+                }
+                DStep::RFoldRest => {
+                    let n = d.by_ref().rev().fold(0usize, |a, _e| a + 1);
+                    let _ = n;
                 }
             }
         }
@@ -1206,10 +1238,15 @@ pub fn src() -> impl Strategy<Value = Src> {
 }
 pub fn dstep() -> impl Strategy<Value = DStep> {
     prop_oneof![
-        4 => Just(DStep::Next),
-        4 => Just(DStep::NextBack),
-        1 => Just(DStep::Len),
-        1 => Just(DStep::SizeHint),
+        8 => Just(DStep::Next),
+        8 => Just(DStep::NextBack),
+        2 => Just(DStep::Len),
+        2 => Just(DStep::SizeHint),
+        3 => (0u8..4).prop_map(DStep::Nth),
+        3 => (0u8..4).prop_map(DStep::NthBack),
+        1 => Just(DStep::CountRest),
+        1 => Just(DStep::LastRest),
+        1 => Just(DStep::RFoldRest),
     ]
 }
 pub fn drain_script() -> impl Strategy<Value = Vec<DStep>> {
